@@ -936,8 +936,11 @@ class PseudoNetCDFFile(PseudoNetCDFSelfReg, object):
                     varorder.pop(axisidx)
                     varorder.insert(newdi, newdk)
                 assert (varorder == varneworder)
-                newvals.dimensions = tuple(varorder)
-                outf.variables[vk] = newvals
+                # create a proper variable (values read from netCDF files
+                # are plain arrays without dimensions or attributes)
+                newvar = outf.copyVariable(
+                    vv, key=vk, dimensions=tuple(varorder), withdata=False)
+                newvar[...] = newvals
             else:
                 pass
 
